@@ -178,6 +178,12 @@ func (s *stream) tryUnblock() bool {
 		return false
 	}
 
+	// the heartbeat visits a snapshot of the blocked list: the owner may have been woken up since
+	if !s.streamer.isBlocked(s) {
+		s.mu.Unlock()
+		return false
+	}
+
 	if s.awaySeq != s.commitSeq.Load() {
 		logger.Panicf("why events are different? away event id=%d, commit event id=%d", s.awaySeq, s.commitSeq)
 	}
